@@ -39,6 +39,9 @@ Decorated(B) == {Node(s, {Node(Assn(p, o), {Assn(p2, o2)})}) : s \in B, p \in B,
 Nodes2(B) == {Node(s, {a, b}) : s \in B, a \in AL(B, 3), b \in AL(B, 3)} \ {Node(s, {a}) : s \in B, a \in AL(B, 3)}
 Nodes3(B) == {Node(s, {a, b, c}) : s \in B, a \in AL(B, 3), b \in AL(B, 3), c \in AL(B, 3)}
              \ ({Node(s, {a}) : s \in B, a \in AL(B, 3)} \cup Nodes2(B))
+\* nodes with four / five simple assertions (removal from the middle of the sorted list)
+Nodes4(B) == {Node(s, A) : s \in B, A \in {Q \in SUBSET AL(B, 3) : Cardinality(Q) = 4}}
+Nodes5(B) == {Node(s, A) : s \in B, A \in {Q \in SUBSET AL(B, 3) : Cardinality(Q) = 5}}
 \* leaves holding a CBOR-tagged known value (same digest as the known value itself)
 TkvShapes == {Leaf(TKV(1)), Wrap(Leaf(TKV(1))), Assn(Leaf(TKV(1)), KV(1)),
               Node(Leaf(TKV(1)), {Assn(KV(1), Leaf(TKV(1)))}), Node(KV(1), {Assn(Leaf(TKV(1)), KV(1))})}
